@@ -6,7 +6,7 @@ import (
 	"context"
 
 	"github.com/sassoftware/relic/v8/config"
-	"github.com/sassoftware/relic/v8/internal/activation/activatecmd"
+	activatecmd "github.com/sassoftware/relic/v8/zz_verif/simactivate"
 )
 
 // ZZNew builds a WorkerToken that talks to addr with the given cookie without
@@ -30,3 +30,12 @@ func ZZNew(cfg *config.Config, tokenName, addr, cookie string) (*WorkerToken, er
 		procsExited: make(chan int, 10),
 	}, nil
 }
+
+// ZZCookie returns the per-process secret the parent sends with every request.
+func ZZCookie(t *WorkerToken) string { return t.cookie }
+
+// ZZAddr returns the address the parent sends its requests to.
+func ZZAddr(t *WorkerToken) string { return t.addr }
+
+// ZZWorkerCount returns how many worker processes the parent believes to be alive.
+func ZZWorkerCount(t *WorkerToken) int { return t.countWorkers() }
